@@ -346,8 +346,8 @@ fn one_case(seed: u64, i: u64, n_ops: usize, rep: &mut Report) {
 
 pub fn run(tier: &str, seed: u64, replay: Option<u64>) -> Report {
   let scale: u64 = (if tier == "thorough" { 40 } else { 1 }) * util::env_u64("PV_SCALE", 1);
-  let n: u64 = if tier == "miri" { 1 } else { 200_000 * scale };
-  let n_ops = if tier == "miri" { 30 } else { 120 };
+  let n: u64 = if tier == "miri" { 6 } else { 200_000 * scale };
+  let n_ops = if tier == "miri" { 50 } else { 120 };
   let mut total = Report::new();
   if let Some(c) = replay { one_case(seed, c, n_ops, &mut total); return total; }
   let parts = util::parallel(n, if tier == "miri" { 1 } else { util::threads() }, 32, Report::new, |i, rep: &mut Report| { one_case(seed, i, n_ops, rep); rep.alarm_total < 20 });
